@@ -9,13 +9,6 @@ open Pf.Proto Pf.C14x
 def fracsOut (pre : String) (v : Array (Int × Int)) : Out :=
   [(pre ++ ".num", v.map (·.1)), (pre ++ ".den", v.map (·.2))]
 
-/-- the power law as a finite table: candidate slopes `cn[c]/cd[c]`, value `tab[c·n + i]` at cell `i`;
-`-1` (no token of a non-negative float) when the slope is not a candidate -/
-def pwTable (n : Nat) (cn cd tab : Array Int) (i : Nat) (s : Int × Int) : Int :=
-  match (List.range cn.size).find? fun c => cn[c]! * s.2 == s.1 * cd[c]! with
-  | some c => tab[c * n + i]!
-  | none => -1
-
 def opsC14riv : List (String × Op) := [
   ("c14x_estuary", fun a => do
     let ds ← a.nats "ds"
@@ -29,7 +22,7 @@ def opsC14riv : List (String × Op) := [
     let spec := (List.range ds.size).map fun i =>
       if isValid ds i then estSpec ds (estCond P ds) isOutlet i else 0
     pure [("model", classifyEstuary ds seq pits P elev maxElev), ("spec", spec.toArray),
-          ("topo", ofBool (isTopo ds seq)),
+          ("topo", ofBool (isTopo ds seq)), ("cover", ofBool (coversNet_c14 ds seq)),
           ("pits_ok", ofBool (pits == pitIndices ds))]),
   ("c14x_river_depth", fun a => do
     let ds ← a.nats "ds"
@@ -45,7 +38,9 @@ def opsC14riv : List (String × Op) := [
     let depth := riverDepth ds seq P (pwTable ds.size cn cd tab) minDph ndOut
     let spec := (Array.range ds.size).map fun j => rivslpSpec ds P j
     pure (fracsOut "model.slope" slope ++ [("model.depth", depth)] ++ fracsOut "spec.slope" spec ++
-          [("exact", ofBool (riverExact ds P)), ("topo", ofBool (isTopo ds seq))])),
+          [("exact", ofBool (riverExact ds P)), ("topo", ofBool (isTopo ds seq)),
+           ("cover", ofBool (coversNet_c14 ds seq)),
+           ("hyp", ofBool (decide (0 < P.S ∧ 0 < P.K ∧ 0 < P.minDen ∧ -9999 * P.minDen < P.minNum)))])),
   ("c14x_slope", fun a => do
     let nrow ← a.nat "nrow"
     let ncol ← a.nat "ncol"
